@@ -6,6 +6,7 @@ import FormulaicVerif.Proofs.C13PolyMore
 import FormulaicVerif.Proofs.C13Real
 import FormulaicVerif.Proofs.C13Replay
 import FormulaicVerif.Proofs.C13Distinct
+import FormulaicVerif.Proofs.C13Key
 import FormulaicVerif.Model.PatsyCompat
 import FormulaicVerif.Model.Preloaded
 import FormulaicVerif.Gen.Names
@@ -824,5 +825,109 @@ example : Contrasts.indexOf? (.str "b") [.str "a", .str "b", .str "c"] = some 1 
 theorem identity_id {β : Type} (x : β) : identity x = x := rfl
 
 end shims
+
+/-! ## 6. the key under which the library keeps the recorded statistics
+
+"… all of them apply the recorded statistics unchanged to new data": through a formula the statistics are
+kept by the library, in `ModelSpec.transform_state`, under a KEY computed from the call (`stateful_eval`).
+A column whose name is not a plain identifier (`` scale(`class`) ``, `` center(`a b`) ``, a name that NFKC
+normalisation changes) is evaluated under a stand-in identifier chosen by looking at the OTHER names of the
+data set and the context; the key must not inherit that dependence, or follow-up data that merely contain
+an unused column `class_1` / `a_b` would be re-fitted. -/
+section key
+open FormulaicVerif.Model.PyAlias FormulaicVerif.Model.TransformKey FormulaicVerif.Proofs.C13Key
+open FormulaicVerif.Proofs.C15Alias (AsciiIdent)
+
+/-- C13.6a  **the key is the call as the user wrote it.**  For an expression `t1 ++ "`name`" ++ t2` with one
+back-quoted column name (ANY name: keyword, non-identifier, NFKC-unstable identifier, plain identifier),
+a call node whose unparsed text is `pre ++ stand-in ++ post` — the stand-in between non-word characters,
+the unparser printing no word that the source does not contain — and ANY environment `env` (the columns
+of the data set, the context): the key is `pre ++ name-as-written ++ post`, where the name is written as it
+is when Python reads it back unchanged and between back-quotes otherwise.  The stand-in `a` (second
+component) does depend on `env`; the key does not mention it.
+Hypotheses on CPython's parameters: ASCII identifiers are identifiers (`ident`), ASCII word characters
+are word characters (`word`). -/
+theorem state_key_of_call (py : Py) (hident : ∀ a, AsciiIdent a → py.ident a = true)
+    (hword : ∀ c, asciiWord c = true → py.word c = true)
+    (env : List (List Char)) (expr t1 name t2 pre post : List Char)
+    (hsplit : split expr = [.text t1, .name name, .text t2])
+    (hfmt : ∀ w, w ∈ runs py.word pre ++ runs py.word post → w ∈ PyAlias.words t1 ++ PyAlias.words t2)
+    (hpre : EndsNonword py.word pre) (hpost : StartsNonword py.word post) :
+    ∃ a, stateKey py env expr name pre post = some (pre ++ writtenName py name ++ post, a) := by
+  obtain ⟨a, copy, hs, s1, added, hn⟩ :=
+    sanitizeNames_one { pre := [], ident := py.ident } py.isSpace env expr t1 name t2 hsplit
+  refine ⟨a, ?_⟩
+  unfold stateKey
+  simp only [hn, standIn_single]
+  congr 2
+  by_cases hc : (py.ident name && !isKeyword name) = true
+  · -- the name is usable as it is: it is its own stand-in and nothing is substituted
+    have ha : a = name := by
+      unfold sanitizeName at hs
+      have : (([] : List Char).isEmpty && py.ident name && !isKeyword name && getOr [] name name) = true := by
+        simp only [Bool.and_eq_true] at hc
+        simp [getOr, lookup, hc.1, hc.2]
+      rw [if_pos this] at hs
+      exact ((by simpa using hs.symm : a = name ∧ copy = false)).1
+    subst ha
+    simp [restoreKey_single_same, writtenName, hc]
+  · -- a stand-in was chosen: an ASCII identifier, no keyword, no word of the source
+    have hc' : (py.ident name && !isKeyword name) = false := by simpa using hc
+    rcases FormulaicVerif.Proofs.C15Alias.sanitizeName_spec _ _ name a copy ⟨by simp, by simp⟩ hs with h | ⟨hid, ht⟩
+    · have h1 : py.ident name = true := h.2.2.1
+      exact absurd (by simp [h1, h.2.2.2.1]) hc
+    · obtain ⟨_, hkw, hres⟩ := FormulaicVerif.Proofs.C15Alias.taken_false ht
+      have hne : name ≠ a := by
+        intro e
+        subst e
+        exact hc (by simp [hident _ hid, hkw])
+      have hnot : ∀ w, w ∈ runs py.word pre ++ runs py.word post → a ≠ w := by
+        intro w hw e
+        subst e
+        have := hfmt _ hw
+        simp only [List.contains_eq_mem, decide_eq_false_iff_not] at hres
+        exact hres this
+      rw [restoreKey_single _ _ _ _ hne,
+        replaceWord_middle py.word a _ pre post hid.1 (fun c hcm => hword c (hid.2.1 c hcm)) hpre hpost
+          (fun h => hnot _ (List.mem_append_left _ h) rfl) (fun h => hnot _ (List.mem_append_right _ h) rfl)]
+      simp [writtenName, hc']
+
+/-- C13.6b  **the key ignores what else the data contain**: two data sets / contexts with ANY other names
+give the same key for the same call — so the statistics recorded on the first are found again on the
+second. -/
+theorem state_key_ignores_other_columns (py : Py) (hident : ∀ a, AsciiIdent a → py.ident a = true)
+    (hword : ∀ c, asciiWord c = true → py.word c = true)
+    (env env' : List (List Char)) (expr t1 name t2 pre post : List Char)
+    (hsplit : split expr = [.text t1, .name name, .text t2])
+    (hfmt : ∀ w, w ∈ runs py.word pre ++ runs py.word post → w ∈ PyAlias.words t1 ++ PyAlias.words t2)
+    (hpre : EndsNonword py.word pre) (hpost : StartsNonword py.word post) :
+    (stateKey py env expr name pre post).map (·.1) = (stateKey py env' expr name pre post).map (·.1) := by
+  obtain ⟨a, h⟩ := state_key_of_call py hident hword env expr t1 name t2 pre post hsplit hfmt hpre hpost
+  obtain ⟨a', h'⟩ := state_key_of_call py hident hword env' expr t1 name t2 pre post hsplit hfmt hpre hpost
+  rw [h, h']
+  rfl
+
+/-- non-vacuity: `` scale(`class`) `` splits into text, name, text -/
+example : split "scale(`class`)".toList = [.text "scale(".toList, .name "class".toList, .text ")".toList] := by
+  decide
+
+/-- non-vacuity (hypotheses `hpre`, `hpost`, `hfmt` for `pre = "scale("`, `post = ")"`) -/
+example : EndsNonword asciiWord "scale(".toList ∧ StartsNonword asciiWord ")".toList ∧
+    (∀ w, w ∈ runs asciiWord "scale(".toList ++ runs asciiWord ")".toList →
+      w ∈ PyAlias.words "scale(".toList ++ PyAlias.words ")".toList) := by
+  refine ⟨.inr ⟨"scale".toList, '(', by decide, by decide⟩, .inr ⟨')', [], by decide, by decide⟩, ?_⟩
+  decide
+
+/-- non-vacuity / the dependence that the key must not inherit: on data without other columns the keyword
+column `class` is evaluated as `class_1`; on data that also have an (unused) column `class_1`, as `class_2`;
+the key is `` scale(`class`) `` both times -/
+example :
+    stateKey asciiPy [] "scale(`class`)".toList "class".toList "scale(".toList ")".toList
+      = some ("scale(`class`)".toList, "class_1".toList) ∧
+    stateKey asciiPy ["class_1".toList, "x".toList] "scale(`class`)".toList "class".toList "scale(".toList ")".toList
+      = some ("scale(`class`)".toList, "class_2".toList) := by
+  decide
+
+end key
 
 end FormulaicVerif.Props.C13
